@@ -28,7 +28,7 @@ theorem strstr_iff_infix (h n : List Char) : strstr h n = true ↔ n <:+: h := b
 def specClass (name : String) : Fix :=
   if ["execl", "execlp", "execle", "execv", "execve", "execvp", "execvpe"].contains name then .exec
   else if ["setjmp", "_setjmp", "sigsetjmp", "__sigsetjmp"].contains name then .setjmp
-  else if ["longjmp", "siglongjmp", "__longjmp_chk"].contains name then .longjmp
+  else if ["longjmp", "siglongjmp", "__longjmp_chk", "_longjmp"].contains name then .longjmp
   else if ["fork", "vfork", "daemon", "posix.fork"].contains name then .fork
   else .none
 
@@ -38,12 +38,12 @@ theorem classifyName_eq_spec (name : String) : classifyName name = specClass nam
   · rw [if_pos h]
     have hm : name ∈ fixupSyms := by simpa using h
     simp only [fixupSyms, List.mem_cons, List.not_mem_nil, or_false] at hm
-    rcases hm with h | h | h | h | h | h | h | h | h | h | h | h | h | h | h | h | h | h <;> subst h <;> decide
+    rcases hm with h | h | h | h | h | h | h | h | h | h | h | h | h | h | h | h | h | h | h <;> subst h <;> decide
   · rw [if_neg h]
     have hm : name ∉ fixupSyms := by simpa using h
     simp only [fixupSyms, List.mem_cons, List.not_mem_nil, or_false, not_or] at hm
-    obtain ⟨h1, h2, h3, h4, h5, h6, h7, h8, h9, h10, h11, h12, h13, h14, h15, h16, h17, h18⟩ := hm
-    simp [specClass, h1, h2, h3, h4, h5, h6, h7, h8, h9, h10, h11, h12, h13, h14, h15, h16, h17, h18]
+    obtain ⟨h1, h2, h3, h4, h5, h6, h7, h8, h9, h10, h11, h12, h13, h14, h15, h16, h17, h18, h19⟩ := hm
+    simp [specClass, h1, h2, h3, h4, h5, h6, h7, h8, h9, h10, h11, h12, h13, h14, h15, h16, h17, h18, h19]
 
 /-! ### one step of `replayX`, unfolded -/
 
